@@ -6,7 +6,7 @@
 From V Require Import Common.Base JpegLS.JlsParams JpegLS.JlsGolomb JpegLS.JlsRun JpegLS.JlsModel.
 From V Require Import JpegLS.JlsProofsParams JpegLS.JlsProofsGolomb JpegLS.JlsProofsSample
                       JpegLS.JlsProofsRun JpegLS.JlsProofsNear0 JpegLS.JlsProofsInterrupt
-                      JpegLS.JlsProofsLine JpegLS.JlsProofsLine3 JpegLS.JlsProofsScan.
+                      JpegLS.JlsProofsLine JpegLS.JlsProofsLine3 JpegLS.JlsProofsScan JpegLS.JlsProofsWriter.
 
 (* ---------- small byte lemmas ---------- *)
 
@@ -241,13 +241,12 @@ Theorem stream_decode : forall epk dpk w h comps bd near pixels ops lim,
   (dpk = PkLossless -> near = 0) ->
   Forall (in_range bd) pixels -> zlen pixels = w * h * comps -> w * h * comps <= lim ->
   encode_scan_ops epk (jls_params bd near) w h comps pixels = Ok ops ->
-  gw_pack_ok ops ->
   exists recon,
     decode_image dpk lim ([255; 216] ++ write_sof55 w h comps bd ++ write_sos comps near ++ gw_run ops ++ [255; 217]) =
       Ok (mkDecoded (integersToPixels bd (2 ^ bd - 1) recon) w h comps bd near) /\
     Forall2 (near_close near) pixels recon /\ Forall (in_range bd) recon.
 Proof.
-  intros epk dpk w h comps bd near pixels ops lim Hh Hnm Hd0 Hrng Hlen Hlim Henc Hgw.
+  intros epk dpk w h comps bd near pixels ops lim Hh Hnm Hd0 Hrng Hlen Hlim Henc.
   pose proof Hh as [Hbd Hw Hhh Hc Hnear Hepk].
   assert (Hnr : 0 <= near <= near_max bd) by lia.
   (* the ops are also those of the decoder's own package *)
@@ -257,7 +256,8 @@ Proof.
     - specialize (Hd0 eq_refl). subst near. rewrite encode_scan_ops_near0 by assumption. exact Henc. }
   assert (Hdpk : pk_ok dpk near) by (destruct dpk; [apply Hd0; reflexivity | exact I]).
   destruct (scan_lockstep bd near dpk w h comps pixels ops Hbd Hnr Hdpk ltac:(lia) ltac:(lia) Hc Hrng Hlen Henc')
-    as (recon & Hrel & Hrr & Hdec).
+    as (recon & Hrel & Hrr & Hwf & Hdec).
+  pose proof (gw_run_pack ops Hwf) as Hgw.
   destruct (decode_header epk dpk w h comps bd near (gw_run ops ++ [255; 217]) lim Hh Hd0)
     as (d & (Fbd & Fw & Fh & Fc & Fmv) & Hhdr).
   exists recon. split; [|split; assumption].
@@ -268,4 +268,134 @@ Proof.
   rewrite (scan_bytes_packed dpk _ _ (le_n _) Hmf).
   destruct (jls_stuff_unstuff (ops_bits ops)) as (pad & Hbits & _).
   rewrite Hbits, Hdec. reflexivity.
+Qed.
+
+(* ---------- property level: C03, C07, C14 ---------- *)
+
+Lemma near_close_0_eq : forall a b, Forall2 (near_close 0) a b -> a = b.
+Proof.
+  induction 1 as [|x y ta tb H HF IH]; [reflexivity|]. unfold near_close in H.
+  assert (x = y) by lia. subst y. rewrite IH. reflexivity.
+Qed.
+
+(* what an encoder call that succeeds has produced *)
+Lemma encode_image_ok : forall pk w h comps bd near pixelData stream,
+  encode_image pk w h comps bd near pixelData = Ok stream ->
+  1 <= w /\ 1 <= h /\ (comps = 1 \/ comps = 3) /\ 2 <= bd <= 16 /\
+  (pk = PkNear -> 0 <= near <= 255) /\
+  zlen (pixelsToIntegers bd pixelData) = w * h * comps /\
+  exists ops, encode_scan_ops pk (jls_params bd near) w h comps (pixelsToIntegers bd pixelData) = Ok ops /\
+              stream = [255; 216] ++ write_sof55 w h comps bd ++ write_sos comps near ++ gw_run ops ++ [255; 217].
+Proof.
+  intros pk w h comps bd near px stream H. unfold encode_image in H.
+  destruct (Z.leb_spec w 0); [discriminate|]. destruct (Z.leb_spec h 0); [discriminate|]. cbn [orb] in H.
+  destruct (Z.eqb_spec comps 1) as [E1|N1]; destruct (Z.eqb_spec comps 3) as [E3|N3]; cbn [negb andb] in H;
+    try discriminate;
+    (destruct (Z.ltb_spec bd 2); [discriminate|]; destruct (Z.gtb_spec bd 16); [discriminate|]; cbn [orb] in H;
+     destruct pk;
+     [ destruct (negb (zlen (pixelsToIntegers bd px) =? w * h * comps)) eqn:El; [discriminate|];
+       destruct (encode_scan_ops PkLossless (jls_params bd near) w h comps (pixelsToIntegers bd px)) as [ops| | |] eqn:Eo;
+       try discriminate; inversion H; subst stream;
+       apply negb_false_iff in El; apply Z.eqb_eq in El;
+       repeat split; try lia; try (intro Hc; discriminate); auto; exists ops; split; reflexivity
+     | destruct (Z.ltb_spec near 0); [discriminate|]; destruct (Z.gtb_spec near 255); [discriminate|]; cbn [orb] in H;
+       destruct (negb (zlen (pixelsToIntegers bd px) =? w * h * comps)) eqn:El; [discriminate|];
+       destruct (encode_scan_ops PkNear (jls_params bd near) w h comps (pixelsToIntegers bd px)) as [ops| | |] eqn:Eo;
+       try discriminate; inversion H; subst stream;
+       apply negb_false_iff in El; apply Z.eqb_eq in El;
+       repeat split; try lia; auto; exists ops; split; reflexivity ]).
+Qed.
+
+(* jls_roundtrip (C03): decoding the lossless encoder's output returns exactly the input samples
+   with the same width, height, component count and precision — every image with 1 or 3
+   components, precision 2..16, samples below 2^P, dimensions up to 65535. *)
+Theorem jls_roundtrip : forall w h comps P pixelData stream lim,
+  w <= 65535 -> h <= 65535 -> w * h * comps <= lim ->
+  Forall (in_range P) (pixelsToIntegers P pixelData) ->
+  jls_encode w h comps P pixelData = Ok stream ->
+  jls_decode lim stream =
+  Ok (mkDecoded (integersToPixels P (2 ^ P - 1) (pixelsToIntegers P pixelData)) w h comps P 0).
+Proof.
+  intros w h comps P px stream lim Hw Hh Hlim Hr Henc.
+  destruct (encode_image_ok _ _ _ _ _ _ _ _ Henc) as (Hw1 & Hh1 & Hc & HP & _ & Hlen & ops & Hops & Hs).
+  subst stream.
+  assert (Hn : 0 <= near_max P).
+  { unfold near_max. pose proof (pow2_bounds P HP). assert (0 <= (2 ^ P - 1) / 2) by (apply Z.div_pos; lia). lia. }
+  destruct (stream_decode PkLossless PkLossless w h comps P 0 _ ops lim
+              (mkHeaderOk PkLossless w h comps P 0 HP ltac:(lia) ltac:(lia) Hc ltac:(lia) eq_refl)
+              Hn (fun _ => eq_refl) Hr Hlen Hlim Hops) as (recon & Hdec & Hrel & _).
+  apply near_close_0_eq in Hrel. subst recon. exact Hdec.
+Qed.
+
+(* jlsn_bound (C07): for every NEAR in 0..min(255, MAXVAL/2), the near-lossless decoder returns,
+   from the near-lossless encoder's output, samples within NEAR of the source and inside
+   [0, 2^P - 1], reports the NEAR requested and the original geometry. *)
+Theorem jlsn_bound : forall w h comps P near pixelData stream lim,
+  w <= 65535 -> h <= 65535 -> w * h * comps <= lim -> near <= near_max P ->
+  Forall (in_range P) (pixelsToIntegers P pixelData) ->
+  jlsn_encode w h comps P near pixelData = Ok stream ->
+  exists recon,
+    jlsn_decode lim stream = Ok (mkDecoded (integersToPixels P (2 ^ P - 1) recon) w h comps P near) /\
+    Forall2 (near_close near) (pixelsToIntegers P pixelData) recon /\ Forall (in_range P) recon.
+Proof.
+  intros w h comps P near px stream lim Hw Hh Hlim Hnm Hr Henc.
+  destruct (encode_image_ok _ _ _ _ _ _ _ _ Henc) as (Hw1 & Hh1 & Hc & HP & Hnr & Hlen & ops & Hops & Hs).
+  subst stream. specialize (Hnr eq_refl).
+  apply (stream_decode PkNear PkNear w h comps P near _ ops lim
+           (mkHeaderOk PkNear w h comps P near HP ltac:(lia) ltac:(lia) Hc Hnr I)
+           Hnm (fun E => ltac:(discriminate E)) Hr Hlen Hlim Hops).
+Qed.
+
+(* NEAR = 0 is exact *)
+Corollary jlsn_near0_exact : forall w h comps P pixelData stream lim,
+  w <= 65535 -> h <= 65535 -> w * h * comps <= lim ->
+  Forall (in_range P) (pixelsToIntegers P pixelData) ->
+  jlsn_encode w h comps P 0 pixelData = Ok stream ->
+  jlsn_decode lim stream =
+  Ok (mkDecoded (integersToPixels P (2 ^ P - 1) (pixelsToIntegers P pixelData)) w h comps P 0).
+Proof.
+  intros w h comps P px stream lim Hw Hh Hlim Hr Henc.
+  destruct (encode_image_ok _ _ _ _ _ _ _ _ Henc) as (_ & _ & _ & HP & _).
+  assert (Hn : 0 <= near_max P).
+  { unfold near_max. pose proof (pow2_bounds P HP). assert (0 <= (2 ^ P - 1) / 2) by (apply Z.div_pos; lia). lia. }
+  destruct (jlsn_bound w h comps P 0 px stream lim Hw Hh Hlim Hn Hr Henc) as (recon & Hdec & Hrel & _).
+  apply near_close_0_eq in Hrel. subst recon. exact Hdec.
+Qed.
+
+(* C14, cross decoding: each decoder on the other package's NEAR = 0 stream returns the source *)
+Theorem cross_decode_near_of_lossless : forall w h comps P pixelData stream lim,
+  w <= 65535 -> h <= 65535 -> w * h * comps <= lim ->
+  Forall (in_range P) (pixelsToIntegers P pixelData) ->
+  jls_encode w h comps P pixelData = Ok stream ->
+  jlsn_decode lim stream =
+  Ok (mkDecoded (integersToPixels P (2 ^ P - 1) (pixelsToIntegers P pixelData)) w h comps P 0).
+Proof.
+  intros w h comps P px stream lim Hw Hh Hlim Hr Henc.
+  rewrite (near0_same_function w h comps P px Hr) in Henc.
+  apply (jlsn_near0_exact w h comps P px stream lim); assumption.
+Qed.
+
+Theorem cross_decode_lossless_of_near0 : forall w h comps P pixelData stream lim,
+  w <= 65535 -> h <= 65535 -> w * h * comps <= lim ->
+  Forall (in_range P) (pixelsToIntegers P pixelData) ->
+  jlsn_encode w h comps P 0 pixelData = Ok stream ->
+  jls_decode lim stream =
+  Ok (mkDecoded (integersToPixels P (2 ^ P - 1) (pixelsToIntegers P pixelData)) w h comps P 0).
+Proof.
+  intros w h comps P px stream lim Hw Hh Hlim Hr Henc.
+  rewrite <- (near0_same_function w h comps P px Hr) in Henc.
+  apply (jls_roundtrip w h comps P px stream lim); assumption.
+Qed.
+
+(* the sample containers: 1 byte per sample (P <= 8) or 2 bytes little endian *)
+Lemma container_roundtrip_8 : forall P px, P <= 8 -> 2 <= P ->
+  Forall (in_range P) px -> integersToPixels P (2 ^ P - 1) (pixelsToIntegers P px) = px.
+Proof.
+  intros P px H8 H2 Hr. unfold integersToPixels, pixelsToIntegers.
+  destruct (Z.leb_spec P 8); [|lia].
+  assert (Hp : 2 ^ P <= 2 ^ 8) by (apply Z.pow_le_mono_r; lia). change (2 ^ 8) with 256 in Hp.
+  induction Hr as [|v t Hv Ht IH]; cbn [integersToPixels8]; [reflexivity|].
+  unfold in_range in Hv. rewrite IH. f_equal. unfold clamp_sample.
+  destruct (Z.ltb_spec v 0); [lia|]. destruct (Z.gtb_spec v (2 ^ P - 1)); [lia|].
+  apply wrapU8_small. lia.
 Qed.
